@@ -261,7 +261,7 @@ fn tree_job(ctx: &Ctx, job: usize, iters: u64) -> Stats {
     let mut st = Stats::new();
     let mut rng = Rng::stream(ctx.seed, "C14.tree", job as u64);
     for it in 0..iters {
-        let pool: &[&str] = if it % 3 == 0 { &gen::FANCY_NAMES } else { &gen::PLAIN_NAMES };
+        let pool: &[&str] = if it % 3 == 0 { &gen::FANCY_NAMES } else if it % 6 == 1 { &gen::MARK_NAMES } else { &gen::PLAIN_NAMES };
         let mut cfg = GenCfg::simple(&pool[..3], 4);
         cfg.allow_ref = true;
         cfg.binder_weight = 20;
@@ -293,7 +293,7 @@ fn cli_case(ctx: &Ctx, st: &mut Stats, text: &str, filter: Option<&str>, tag: &s
     };
     let dir = ctx.fresh_dir(&format!("c14-{}", tag));
     let _ = std::fs::create_dir_all(&dir);
-    let (dp, pp) = (dir.join("bdd.dot"), dir.join("tree.dot"));
+    let (dp, pp) = (dir.join(hostile_file_name(text.len(), "bdd.dot")), dir.join(hostile_file_name(text.len() / 2, "tree.dot")));
     // every other case: the export files already exist and are longer than what will be written
     if text.len() % 2 == 0 {
         let _ = std::fs::write(&dp, stale_content());
